@@ -24,6 +24,8 @@ def main():
             sys.exit(kflow.replay_file(a.replay))
         import mflow
         sys.exit(mflow.replay_file(a.replay))
+    if a.tier == "thorough":
+        os.environ["VERIF_DEEP"] = "1"
     seed = int(os.environ.get("VERIF_SEED", "0") or 0)
     out = core.Outcome(prop, a.tier, seed)
     try:
